@@ -1,5 +1,6 @@
 import Drx.Lscr
 import Drx.Lscr.LitEval
+import Drx.Lscr.Steps
 import Drx.Drv.Util
 namespace Drx.Drv.Lscr
 open Drx Drx.Drv Drx.Lscr
@@ -120,6 +121,19 @@ def run : List String → Option String
       (pr, acc.2 ++ [o])) ({}, [])
     let anyErr := outs.any fun o => match o with | .str s => s == "error".toList | _ => false
     some (J.obj [("regs", regsJ pr.regs), ("tree", if anyErr then J.null else match pr.tree with | some t => scriptJ t | none => J.null)]).render
+  -- C10: loop rounds of the decompiler (Drx/Lscr/Steps.lean); `-` for the name table = `names = []`
+  | ["steps", l, n] => do
+    let l ← bytesOfHex l
+    let n ← if n = "-" then some none else (bytesOfHex n).map some
+    some (toString (Steps.lscrSteps l n).sum)
+  | ["stepsx", l, n] => do
+    let l ← bytesOfHex l
+    let n ← if n = "-" then some none else (bytesOfHex n).map some
+    let t := Steps.lscrSteps l n
+    some (J.obj [("sum", J.nat t.sum), ("crb", J.nat t.crb), ("prb", J.nat t.prb), ("grb", J.nat t.grb), ("fnames", J.nat t.fnames),
+                 ("frb", J.nat t.frb), ("tables", J.nat t.tables), ("opcodes", J.nat t.opcodes), ("jump", J.nat t.jump),
+                 ("cond", J.nat t.cond), ("condOps", J.nat t.condOps), ("condCalls", J.nat t.condCalls),
+                 ("condMaxLen", J.nat t.condMaxLen), ("loop", J.nat t.loop)]).render
   -- C11: constants of a script as stored by parse_lrcr_crb, with their Lingo and JavaScript literals
   | ["consts", l] => do
     let d ← bytesOfHex l
